@@ -15,6 +15,8 @@ def run(ctx: Ctx) -> list[Ob]:
     obs += [o for o in r3.r3d(ctx) if "tensor-key" in o.instance]
     obs += r11.r11e(ctx)
     obs += [o for o in r11.r11c(ctx) if ":finite" in o.instance]
+    obs += r11.r11g(ctx)
+    obs += r11.r11h(ctx)
     return obs
 
 
@@ -29,6 +31,7 @@ SPEC = PropSpec(
         "tensor to keep its own requires_grad); R11e -- the complex log-space semiring takes logarithms with csafelog in its stable "
         "reduce and in the morphism from the linear semiring (the plain complex log has a nan gradient at an exactly-zero unit: "
         "'gradients are finite wherever the function value is non-zero'); R11c -- the log-space reduce makes its shift finite."
+        " R11g: a hand-written backward (ComplexSafeLog) repairs non-finite values only -- no ordering comparison (abs(x) < eps) masks the gradient on an open set. R11h: compile_tensor_parameter passes requires_grad = p.learnable, not restricted through dtype.is_floating_point alone (False for complex dtypes: learnable complex parameters would be compiled frozen)."
     ),
     not_decided=(
         "that gradients equal the true derivatives (numerical: finite differences, autograd semantics); gradients with respect to "
